@@ -187,6 +187,9 @@ impl Property for C15 {
 
     fn run(&self, run_seed: u64, tier: Tier, acc: &mut Acc) -> Option<(Violation, Value)> {
         let thorough = tier == Tier::Thorough;
+        if Rng::stream(run_seed, "kind").chance(1, 4) {
+            return run_api(run_seed, thorough, acc);
+        }
         let mut rng = Rng::stream(run_seed, "workload");
         let mut crng = Rng::stream(run_seed, "config");
         let mut frng = Rng::stream(run_seed, "faults");
@@ -354,6 +357,9 @@ impl Property for C15 {
     }
 
     fn replay(&self, scenario: &Value, acc: &mut Acc) -> Result<Option<Violation>, String> {
+        if scenario["kind"].as_str() == Some("api") {
+            return replay_api(scenario, acc);
+        }
         let scn = McScenario::from_json(scenario)?;
         let mut base = scn.clone();
         base.faults.clear();
@@ -379,6 +385,9 @@ impl Property for C15 {
     }
 
     fn shrink(&self, scenario: &Value) -> Vec<Value> {
+        if scenario["kind"].as_str() == Some("api") {
+            return shrink_api(scenario);
+        }
         // shrinking the system changes the conversation and thereby the meaning of the fault
         // point; candidates keep the fault kind and retarget the point to the same command kind
         let Ok(scn) = McScenario::from_json(scenario) else {
@@ -439,4 +448,543 @@ impl Property for C15 {
             distinct2_measure: "distinct conversation shapes".into(),
         }
     }
+}
+
+// -------------------------------------------------------------------------------------------------
+// the bare SolverContext API as a short random program (same fault enumeration, per-call oracle)
+// -------------------------------------------------------------------------------------------------
+
+use super::c12::{Call, apply_call_plain, call_from_json, call_to_json, gen_program};
+use crate::harness::guarded_with_world;
+use crate::refsolver::Policy;
+use crate::transport::{TransportCfg, World};
+use patronus::expr::{Context, ExprRef, TypeCheck};
+use patronus::smt::{Logic, Solver, SolverContext};
+
+#[derive(Clone, Debug, PartialEq, Eq)]
+pub enum ApiOp {
+    SetLogic,
+    /// declare every symbol of the pool that is not declared in the current solver process
+    DeclareAll,
+    Assert(usize),
+    CheckSat,
+    CheckAssuming(Vec<usize>),
+    GetValue(usize),
+    GetCore,
+    Push,
+    Pop,
+    Restart,
+}
+
+fn api_op_to_json(o: &ApiOp) -> Value {
+    match o {
+        ApiOp::SetLogic => json!(["set_logic"]),
+        ApiOp::DeclareAll => json!(["declare_all"]),
+        ApiOp::Assert(i) => json!(["assert", i]),
+        ApiOp::CheckSat => json!(["check_sat"]),
+        ApiOp::CheckAssuming(v) => json!(["check_sat_assuming", v]),
+        ApiOp::GetValue(i) => json!(["get_value", i]),
+        ApiOp::GetCore => json!(["get_unsat_assumptions"]),
+        ApiOp::Push => json!(["push"]),
+        ApiOp::Pop => json!(["pop"]),
+        ApiOp::Restart => json!(["restart"]),
+    }
+}
+
+fn api_op_from_json(v: &Value) -> Result<ApiOp, String> {
+    Ok(match v[0].as_str().ok_or("api op")? {
+        "set_logic" => ApiOp::SetLogic,
+        "declare_all" => ApiOp::DeclareAll,
+        "assert" => ApiOp::Assert(v[1].as_u64().ok_or("idx")? as usize),
+        "check_sat" => ApiOp::CheckSat,
+        "check_sat_assuming" => ApiOp::CheckAssuming(
+            v[1].as_array().ok_or("list")?.iter().map(|x| x.as_u64().unwrap_or(0) as usize).collect(),
+        ),
+        "get_value" => ApiOp::GetValue(v[1].as_u64().ok_or("idx")? as usize),
+        "get_unsat_assumptions" => ApiOp::GetCore,
+        "push" => ApiOp::Push,
+        "pop" => ApiOp::Pop,
+        "restart" => ApiOp::Restart,
+        o => return Err(format!("unknown api op {o}")),
+    })
+}
+
+#[derive(Clone, Debug)]
+pub struct ApiScenario {
+    pub pool: Vec<Call>,
+    pub ops: Vec<ApiOp>,
+    pub profile: usize,
+    pub sim_seed: u64,
+    pub benign: bool,
+    pub faults: Vec<Fault>,
+}
+
+impl ApiScenario {
+    fn to_json(&self) -> Value {
+        json!({"kind": "api",
+            "workload": {"kind": "ops", "pool": self.pool.iter().map(call_to_json).collect::<Vec<_>>(),
+                         "ops": self.ops.iter().map(api_op_to_json).collect::<Vec<_>>()},
+            "config": {"profile": PROFILE_NAMES[self.profile]},
+            "sim_seed": format!("{:#x}", self.sim_seed), "benign_transport": self.benign,
+            "faults": self.faults.iter().map(fault_to_json).collect::<Vec<_>>()})
+    }
+    fn from_json(v: &Value) -> Result<Self, String> {
+        let mut pool = vec![];
+        for c in v["workload"]["pool"].as_array().ok_or("pool")? {
+            pool.push(call_from_json(c)?);
+        }
+        let mut ops = vec![];
+        for o in v["workload"]["ops"].as_array().ok_or("ops")? {
+            ops.push(api_op_from_json(o)?);
+        }
+        let mut faults = vec![];
+        if let Some(fs) = v["faults"].as_array() {
+            for f in fs {
+                faults.push(fault_from_json(f)?);
+            }
+        }
+        let pname = v["config"]["profile"].as_str().ok_or("profile")?;
+        Ok(ApiScenario {
+            pool,
+            ops,
+            profile: PROFILE_NAMES.iter().position(|p| *p == pname).ok_or("profile")?,
+            sim_seed: u64::from_str_radix(v["sim_seed"].as_str().ok_or("sim_seed")?.trim_start_matches("0x"), 16)
+                .map_err(|e| e.to_string())?,
+            benign: v["benign_transport"].as_bool().unwrap_or(true),
+            faults,
+        })
+    }
+}
+
+/// result of one API call
+#[derive(Clone, Debug, PartialEq, Eq)]
+pub enum CallResult {
+    Ok(String),
+    Err(&'static str, Option<String>),
+    Skipped,
+}
+
+pub struct ApiObservation {
+    pub outcome: Outcome<()>,
+    pub calls: Vec<CallResult>,
+    /// for each API call: the response points it consumed (global indices)
+    pub resp_of_call: Vec<Vec<usize>>,
+    pub fired: Vec<FiredFault>,
+    pub n_response_points: usize,
+    pub events: u64,
+    pub log_hash: u64,
+    pub stub_failure: Option<String>,
+    pub solver_rejected: bool,
+}
+
+fn exec_api(scn: &ApiScenario) -> ApiObservation {
+    let tcfg = TransportCfg {
+        benign: scn.benign,
+        ..Default::default()
+    };
+    let policy = Policy::random(&mut Rng::stream(scn.sim_seed, "policy"));
+    let world = World::new(scn.sim_seed, tcfg, policy, FaultPlan { faults: scn.faults.clone() });
+    let mut calls: Vec<CallResult> = vec![];
+    let mut resp_of_call: Vec<Vec<usize>> = vec![];
+    let w2 = world.clone();
+    let outcome = guarded_with_world(&world, || {
+        let mut ctx = Context::default();
+        let mut pool: Vec<Option<ExprRef>> = vec![];
+        for c in &scn.pool {
+            let r = apply_call_plain(&mut ctx, c, &pool);
+            pool.push(r);
+        }
+        let symbols: Vec<ExprRef> = pool
+            .iter()
+            .flatten()
+            .copied()
+            .filter(|e| ctx[*e].is_symbol())
+            .collect::<std::collections::BTreeSet<_>>()
+            .into_iter()
+            .collect();
+        let bools: Vec<ExprRef> = pool
+            .iter()
+            .flatten()
+            .copied()
+            .filter(|e| e.get_bv_type(&ctx) == Some(1))
+            .collect();
+        let all: Vec<ExprRef> = pool.iter().flatten().copied().collect();
+        let solver = solver_const(scn.profile);
+        let mut smt = solver.start(None).map_err(|e| format!("start: {e:?}"))?;
+        let record = |calls: &mut Vec<CallResult>, r: Result<String, patronus::smt::Error>| {
+            calls.push(match r {
+                Ok(s) => CallResult::Ok(s),
+                Err(e) => {
+                    let msg = if let patronus::smt::Error::FromSolver(_, m) = &e { Some(m.clone()) } else { None };
+                    CallResult::Err(err_variant(&e), msg)
+                }
+            });
+        };
+        for op in &scn.ops {
+            let before = w2.borrow().response_points();
+            match op {
+                ApiOp::SetLogic => {
+                    let l = if scn.profile == 2 { Logic::All } else { Logic::QfAufbv };
+                    let r = smt.set_logic(l).map(|_| "ok".to_string());
+                    record(&mut calls, r);
+                }
+                ApiOp::DeclareAll => {
+                    let mut res = Ok("ok".to_string());
+                    for s in &symbols {
+                        if let Err(e) = smt.declare_const(&ctx, *s) {
+                            res = Err(e);
+                            break;
+                        }
+                    }
+                    record(&mut calls, res);
+                }
+                ApiOp::Assert(i) => {
+                    if bools.is_empty() {
+                        calls.push(CallResult::Skipped);
+                    } else {
+                        let r = smt.assert(&ctx, bools[i % bools.len()]).map(|_| "ok".to_string());
+                        record(&mut calls, r);
+                    }
+                }
+                ApiOp::CheckSat => {
+                    let r = smt.check_sat().map(|r| format!("{r:?}"));
+                    record(&mut calls, r);
+                }
+                ApiOp::CheckAssuming(v) => {
+                    if bools.is_empty() {
+                        calls.push(CallResult::Skipped);
+                    } else {
+                        let props: Vec<ExprRef> = v.iter().map(|i| bools[i % bools.len()]).collect();
+                        let r = smt.check_sat_assuming(&ctx, props).map(|r| format!("{r:?}"));
+                        record(&mut calls, r);
+                    }
+                }
+                ApiOp::GetValue(i) => {
+                    if all.is_empty() {
+                        calls.push(CallResult::Skipped);
+                    } else {
+                        let e = all[i % all.len()];
+                        use patronus::expr::SerializableIrNode;
+                        let r = smt.get_value(&mut ctx, e).map(|v| v.serialize_to_str(&ctx));
+                        record(&mut calls, r);
+                    }
+                }
+                ApiOp::GetCore => {
+                    use patronus::expr::SerializableIrNode;
+                    let r = smt.get_unsat_assumptions(&mut ctx).map(|v| {
+                        let mut s: Vec<String> = v.iter().map(|e| e.serialize_to_str(&ctx)).collect();
+                        s.sort();
+                        s.join(",")
+                    });
+                    record(&mut calls, r);
+                }
+                ApiOp::Push => {
+                    let r = smt.push().map(|_| "ok".to_string());
+                    record(&mut calls, r);
+                }
+                ApiOp::Pop => {
+                    let r = smt.pop().map(|_| "ok".to_string());
+                    record(&mut calls, r);
+                }
+                ApiOp::Restart => {
+                    let r = smt.restart().map(|_| "ok".to_string());
+                    record(&mut calls, r);
+                }
+            }
+            let after = w2.borrow().response_points();
+            resp_of_call.push((before..after).collect());
+        }
+        Ok(())
+    });
+    let w = world.borrow();
+    let mut stub_failure = None;
+    for p in &w.procs {
+        if let Some(f) = &p.solver.stub_failure {
+            stub_failure = Some(f.clone());
+        }
+    }
+    ApiObservation {
+        outcome,
+        calls,
+        resp_of_call,
+        fired: w.fired.clone(),
+        n_response_points: w.response_points(),
+        events: w.stats.events,
+        log_hash: w.log_hash,
+        stub_failure,
+        solver_rejected: w.wire.iter().any(|e| e.solver_error.is_some() && e.fault.is_none()),
+    }
+}
+
+fn judge_api(scn: &ApiScenario, obs: &ApiObservation, clean: &ApiObservation, acc: &mut Acc) -> Option<Violation> {
+    let fault = scn.faults.first()?;
+    let mk = |oracle: &str, class: &str, site: String, detail: String| Violation {
+        property: "C15".into(),
+        oracle: oracle.into(),
+        class: class.into(),
+        site,
+        detail: format!("{detail} [api program; fault: {}; profile={}]", fault.describe(), PROFILE_NAMES[scn.profile]),
+    };
+    let site_base = format!("api:{}", fault.kind.class());
+    let v = match &obs.outcome {
+        Outcome::Panic { loc, msg } => Some(mk("C15/1", "Panic", loc.clone(), format!("a solver-session call panicked at {loc}: {msg}"))),
+        Outcome::Deadlock(d) => Some(mk("C15/1", "Deadlock", site_base.clone(), format!("a solver-session call blocks forever: {d}"))),
+        Outcome::Livelock(d) => Some(mk("C15/1", "Livelock", site_base.clone(), format!("a solver-session call never returns: {d}"))),
+        _ => {
+            // which call consumed the faulted response point?
+            let faulted_call = match &fault.at {
+                FaultAt::Response(r) => clean.resp_of_call.iter().position(|rs| rs.contains(r)),
+                _ => None,
+            };
+            let effective = obs.fired.first().map(|f| f.effective).unwrap_or(false);
+            let mut v = None;
+            if let Some(j) = faulted_call {
+                // calls before the faulted one are untouched
+                for k in 0..j {
+                    if obs.calls.get(k) != clean.calls.get(k) {
+                        v = Some(mk(
+                            "C15/4",
+                            "ResultChanged",
+                            site_base.clone(),
+                            format!("call #{k} ({:?}) changed from {:?} to {:?} although the fault hits call #{j}", scn.ops[k], clean.calls.get(k), obs.calls.get(k)),
+                        ));
+                        break;
+                    }
+                }
+                if v.is_none() && effective {
+                    match obs.calls.get(j) {
+                        Some(CallResult::Ok(r)) => {
+                            v = Some(mk(
+                                "C15/2",
+                                "AnswerDespiteFault",
+                                format!("api:{:?}", scn.ops[j]).split('(').next().unwrap_or("api").to_string(),
+                                format!("call #{j} ({:?}) returned Ok({r}) although the solver's answer was faulty", scn.ops[j]),
+                            ));
+                        }
+                        Some(CallResult::Err(variant, carried)) => {
+                            if let FaultKind::ErrReply { msg, .. } = &fault.kind {
+                                let want = norm_ws(msg);
+                                let want_escaped = norm_ws(&msg.replace('"', "\"\""));
+                                let ok = carried
+                                    .as_ref()
+                                    .map(|c| {
+                                        let got = norm_ws(c);
+                                        got.contains(&want) || got.contains(&want_escaped)
+                                    })
+                                    .unwrap_or(false);
+                                if !ok {
+                                    v = Some(mk(
+                                        "C15/3",
+                                        if carried.is_some() { "MangledMessage" } else { "MessageLost" },
+                                        format!("api-error-reply:{variant}"),
+                                        format!("solver printed (error \"{msg}\") but call #{j} returned {variant} carrying {carried:?}"),
+                                    ));
+                                }
+                            }
+                        }
+                        _ => {}
+                    }
+                }
+            }
+            v
+        }
+    };
+    match v {
+        Some(v) if filter_known(acc, &v) => None,
+        other => other,
+    }
+}
+
+fn gen_api_scenario(run_seed: u64) -> ApiScenario {
+    let mut rng = Rng::stream(run_seed, "api");
+    // a pool of narrow expressions (the stub solver handles up to 128 bits)
+    let pool: Vec<Call> = gen_program(&mut rng, 40, false)
+        .into_iter()
+        .filter(|c| match c {
+            Call::Lit(b, _) => b.len() <= 64,
+            Call::Sym(_, super::c12::Ty::Bv(w), _) => *w <= 64,
+            Call::Sym(_, super::c12::Ty::Arr(i, d), _) => *i <= 4 && *d <= 32,
+            Call::Str(_) | Call::Burst(_) => false,
+            _ => true,
+        })
+        .collect();
+    // filtering may break references: regenerate the typed program from scratch instead
+    let pool = if pool.len() < 5 { vec![Call::Sym("a".into(), super::c12::Ty::Bv(8), 0), Call::True] } else { retype(pool) };
+    let mut ops = vec![ApiOp::SetLogic, ApiOp::DeclareAll];
+    let n = rng.range(4, 14);
+    let mut depth = 0;
+    for _ in 0..n {
+        ops.push(match rng.below(12) {
+            0 | 1 => ApiOp::Assert(rng.usize_below(64)),
+            2 | 3 => ApiOp::CheckSat,
+            4 | 5 => ApiOp::CheckAssuming((0..rng.below(4)).map(|_| rng.usize_below(64)).collect()),
+            6 | 7 => ApiOp::GetValue(rng.usize_below(64)),
+            8 => ApiOp::GetCore,
+            9 => {
+                depth += 1;
+                ApiOp::Push
+            }
+            10 => {
+                if depth > 0 {
+                    depth -= 1;
+                }
+                ApiOp::Pop
+            }
+            _ => ApiOp::Restart,
+        });
+        if ops.last() == Some(&ApiOp::Restart) {
+            ops.push(ApiOp::SetLogic);
+            ops.push(ApiOp::DeclareAll);
+            depth = 0;
+        }
+    }
+    ApiScenario {
+        pool,
+        ops,
+        profile: *rng.pick(&[0usize, 2, 3]),
+        sim_seed: crate::rng::mix(&[run_seed, 151]),
+        benign: true,
+        faults: vec![],
+    }
+}
+
+/// keeps only calls whose operands are still present (indices are remapped)
+fn retype(calls: Vec<Call>) -> Vec<Call> {
+    // simplest robust choice: keep leaf calls only, then add a few operators over them
+    let mut names: std::collections::BTreeSet<String> = Default::default();
+    let mut out: Vec<Call> = calls
+        .into_iter()
+        .filter(|c| matches!(c, Call::Sym(..) | Call::Lit(..) | Call::True | Call::False))
+        // one declaration per name: a second symbol of the same name and another sort would be a
+        // redeclaration, which is the program's fault, not the solver's
+        .filter(|c| match c {
+            Call::Sym(n, _, _) => names.insert(n.clone()),
+            _ => true,
+        })
+        .collect();
+    let n = out.len();
+    // equalities and conjunctions over leaves of equal type are added by index pairs that type-check
+    let ty_of = |c: &Call| -> Option<u32> {
+        match c {
+            Call::Sym(_, super::c12::Ty::Bv(w), _) => Some(*w),
+            Call::Lit(b, _) => Some(b.len() as u32),
+            Call::True | Call::False => Some(1),
+            _ => None,
+        }
+    };
+    let mut extra = vec![];
+    for i in 0..n {
+        for j in (i + 1)..n {
+            if let (Some(a), Some(b)) = (ty_of(&out[i]), ty_of(&out[j])) {
+                if a == b && extra.len() < 12 {
+                    extra.push(Call::Bin(if (i + j) % 2 == 0 { "equal" } else { "greater" }, i, j));
+                }
+            }
+        }
+    }
+    out.extend(extra);
+    out
+}
+
+pub fn run_api(run_seed: u64, thorough: bool, acc: &mut Acc) -> Option<(Violation, Value)> {
+    let base = gen_api_scenario(run_seed);
+    let clean = exec_api(&base);
+    acc.evaluations += 1;
+    acc.sim_steps += clean.events;
+    acc.log_hash = acc.log_hash.rotate_left(9) ^ clean.log_hash;
+    if acc.stub_failure.is_none() {
+        acc.stub_failure = clean.stub_failure.clone();
+    }
+    if !matches!(clean.outcome, Outcome::Ok(())) {
+        // the clean program itself must not crash or hang
+        let v = Violation {
+            property: "C15".into(),
+            oracle: "C15/1".into(),
+            class: clean.outcome.class().into(),
+            site: "api-clean".into(),
+            detail: format!("fault-free solver-session program: {}", clean.outcome.describe()),
+        };
+        if !filter_known(acc, &v) {
+            return Some((v, base.to_json()));
+        }
+        return None;
+    }
+    if clean.solver_rejected {
+        // a program that the solver rejects on its own (e.g. get-value without a model) makes the
+        // conversation ambiguous: the error text of a response-free command is read by the next
+        // response-bearing call. Not a fault scenario.
+        acc.count("skipped.api_program_rejected_by_solver", 1);
+        return None;
+    }
+    acc.count("conversations.api_programs", 1);
+    acc.count("response_points", clean.n_response_points as u64);
+    acc.count("probe.api_program_with_restart", base.ops.contains(&ApiOp::Restart) as u64);
+    let mut frng = Rng::stream(run_seed, "faults");
+    for r in 0..clean.n_response_points.min(24) {
+        for f in faults_for_point(&mut frng, FaultAt::Response(r), &CmdKind::CheckSat, thorough) {
+            // `()` is a legal reply to get-unsat-assumptions: never use it as garbage here
+            if matches!(&f.kind, FaultKind::Garbage { text, .. } if text.trim() == "()") {
+                continue;
+            }
+            let mut scn = base.clone();
+            scn.faults = vec![f.clone()];
+            let obs = exec_api(&scn);
+            acc.evaluations += 1;
+            acc.sim_steps += obs.events;
+            acc.log_hash = acc.log_hash.rotate_left(9) ^ obs.log_hash;
+            for fired in &obs.fired {
+                acc.count(&format!("fault.{}", fired.fault.kind.class()), 1);
+            }
+            acc.distinct.insert(crate::rng::mix(&[
+                crate::rng::fnv1a(format!("{:?}", base.ops).as_bytes()),
+                crate::rng::fnv1a(f.describe().as_bytes()),
+            ]));
+            if let Some(v) = judge_api(&scn, &obs, &clean, acc) {
+                return Some((v, scn.to_json()));
+            }
+        }
+    }
+    None
+}
+
+pub fn replay_api(scenario: &Value, acc: &mut Acc) -> Result<Option<Violation>, String> {
+    let scn = ApiScenario::from_json(scenario)?;
+    let mut base = scn.clone();
+    base.faults.clear();
+    let clean = exec_api(&base);
+    if scn.faults.is_empty() {
+        return Ok(if matches!(clean.outcome, Outcome::Ok(())) {
+            None
+        } else {
+            Some(Violation {
+                property: "C15".into(),
+                oracle: "C15/1".into(),
+                class: clean.outcome.class().into(),
+                site: "api-clean".into(),
+                detail: clean.outcome.describe(),
+            })
+        });
+    }
+    let obs = exec_api(&scn);
+    Ok(judge_api(&scn, &obs, &clean, acc))
+}
+
+pub fn shrink_api(scenario: &Value) -> Vec<Value> {
+    let Ok(scn) = ApiScenario::from_json(scenario) else {
+        return vec![];
+    };
+    let mut out = vec![];
+    if scn.benign {
+        let mut s = scn.clone();
+        s.benign = false;
+        out.push(s);
+    }
+    // drop trailing calls (fault points are global indices into the conversation: dropping calls
+    // after the faulted one keeps their meaning)
+    for keep in (3..scn.ops.len()).rev() {
+        let mut s = scn.clone();
+        s.ops.truncate(keep);
+        out.push(s);
+    }
+    out.iter().map(|s| s.to_json()).collect()
 }
